@@ -44,6 +44,10 @@ struct Tables {
    // the accepted specifications with their global index, in definition order of their container
    std::vector<std::pair<std::string, size_t>> specs;      // plain arguments
    std::vector<std::pair<std::string, size_t>> subspecs;   // sub-group arguments
+   // the specifications that were REFUSED (true = as a sub-group argument): a caller that catches the exception
+   // goes on using the handler, so every real Handler below also makes these attempts (each must be refused
+   // again and must leave nothing behind — seeded change C05-5: the refused argument stayed registered)
+   std::vector<std::pair<std::string, bool>> refused;
    Tables() : abbr(new ArgumentContainer(true)), noabbr(new ArgumentContainer(false)) {}
 };
 
@@ -61,6 +65,7 @@ struct Filled {
    std::vector<std::unique_ptr<int>> dest;     // one per argument, plain ones first
    std::vector<size_t> global;                 // global definition index of dest[i]
    std::deque<celma::prog_args::Handler> subs; // the sub-group handlers must outlive their use (stable addresses)
+   std::deque<int> scratch;                    // destinations of the refused attempts
 };
 
 // returns "" or a line starting with "!!"
@@ -84,6 +89,23 @@ static std::string fill(celma::prog_args::Handler& h, const Tables& T, Filled& f
       catch (const std::exception& e) {
          return std::string("!! Handler::addArgument refused a sub-group specification it accepted before: ") + e.what();
       }
+   }
+   // the refused attempts of the history, after the accepted definitions (what they clash with is still there)
+   for (auto const& r : T.refused) {
+      bool accepted = false;
+      try {
+         f.scratch.push_back(0);
+         if (r.second) {
+            f.subs.emplace_back(h, 0);
+            f.subs.back().addArgument("-", celma::prog_args::destination(f.scratch.back(), "d"), "d");
+            h.addArgument(r.first, f.subs.back(), "d");
+         } else {
+            h.addArgument(r.first, celma::prog_args::destination(f.scratch.back(), "d"), "d");
+         }
+         accepted = true;
+      }
+      catch (...) {}
+      if (accepted) return "!! a specification that was refused is accepted when the same definitions are repeated";
    }
    return "";
 }
@@ -110,7 +132,10 @@ int main() {
                if (!out.empty()) return;
                int d = 0;
                viaHandler = vh::guarded([&] { h.addArgument(spec, celma::prog_args::destination(d, "d"), "d"); });
-               if (!viaHandler.empty()) { out = viaHandler; return; }      // refused (or a `!!` line)
+               if (!viaHandler.empty()) {                                   // refused (or a `!!` line)
+                  if (viaHandler.rfind("!!", 0) != 0) T->refused.emplace_back(spec, false);
+                  out = viaHandler; return;
+               }
             }
             // both containers must take the same decision
             std::string ra, rn;
@@ -124,7 +149,7 @@ int main() {
             rn = vh::guarded([&] { T->noabbr->addArgument(hn, key); });
             if (ra != rn) { out = "!! containers disagree: " + ra + " / " + rn; return; }
             if (haveSub && !ra.empty()) { out = "!! the Handler accepted a plain specification the container refuses: " + ra; return; }
-            if (!ra.empty()) { out = ra; return; }
+            if (!ra.empty()) { T->refused.emplace_back(spec, false); out = ra; return; }
             T->indexA[ha] = T->count;
             T->indexN[hn] = T->count;
             out = "ok idx=" + std::to_string(T->count);
@@ -143,7 +168,7 @@ int main() {
             if (!out.empty()) return;
             celma::prog_args::Handler sub(h, 0);
             std::string r = vh::guarded([&] { h.addArgument(spec, sub, "d"); });
-            if (!r.empty()) { out = r; return; }
+            if (!r.empty()) { if (r.rfind("!!", 0) != 0) T->refused.emplace_back(spec, true); out = r; return; }
             out = "ok idx=" + std::to_string(T->count);
             T->subspecs.emplace_back(spec, T->count);
             ++T->count;
